@@ -160,7 +160,10 @@ func (s *Set) getTemplate(templatePath string, cacheAfterParsing bool) (t *Templ
 
 	t, err = s.getTemplateFromLoader(templatePath, cacheAfterParsing)
 	if err == nil && cacheAfterParsing && !s.developmentMode {
-		s.cache.Put(templatePath, t)
+		// cache under the path the template was found at (including its extension):
+		// that is what getTemplateFromCache() asks for, the bare templatePath only
+		// matches if the empty extension is among the configured ones
+		s.cache.Put(t.Name, t)
 	}
 	return t, err
 }
